@@ -13,6 +13,11 @@
 //	  C. fork printer -> text; go/parser accepts `var _ = text`; its tree equals the built tree MODULO ParenExpr; printing the
 //	     reparsed tree gives the same text.
 //
+//	D. needed parentheses (headers.go): every parsed source again with ALL ParenExpr removed from the tree - what macro expansion
+//	   (base.UnwrapTrivialAst) leaves before gomacro -m -w prints it - printed per declaration: go/parser accepts the text, its
+//	   tree equals the stripped tree MODULO ParenExpr, the second print is identical.  A generator writes functions made of
+//	   if/for/switch/range headers over composite literals and of parenthesised conversions in which every parenthesis is needed.
+//
 // Correspondence with coq/C25/Model.v: for built trees over operands/unary/binary/star/paren the printed token sequence
 // (go/scanner) is compared with the model's print (cases_NNN.v).
 package main
@@ -181,12 +186,16 @@ func checkParsed(in input) string {
 	// recorded finding classes (by-design normalisations of go/printer, see known_findings.json C25-2/3/4), recognised on
 	// the ORIGINAL tree / on the kind of difference; the corpus stream replays the recorded inputs under their keys
 	note := ""
-	if c24lib.HasExplicitEmptyStmt(sf) && in.origin != "corpus" {
-		return "known-class:explicit-empty-statement-dropped"
+	// class C25-3 (explicit empty statements are not printed): the file is NOT dropped; every comparison below is made
+	// modulo the EmptyStmt elements of statement lists (c24lib.CmpOpts.ModEmpty), everything else exactly, and the printed
+	// text must still parse and print identically again
+	modEmpty := c24lib.HasExplicitEmptyStmt(sf) && in.origin != "corpus"
+	if modEmpty {
+		note = "(known-class:explicit-empty-statement-dropped)"
 	}
-	if d := c24lib.Diff(sf.Decls, sf2.Decls, c24lib.CmpOpts{}); d != "" {
-		if in.origin != "corpus" && c24lib.Diff(sf.Decls, sf2.Decls, c24lib.CmpOpts{ModParens: true, NoPos: true}) == "" {
-			note = "(known-class:redundant-parentheses-dropped)"
+	if d := c24lib.Diff(sf.Decls, sf2.Decls, c24lib.CmpOpts{ModEmpty: modEmpty}); d != "" {
+		if in.origin != "corpus" && c24lib.Diff(sf.Decls, sf2.Decls, c24lib.CmpOpts{ModParens: true, NoPos: true, ModEmpty: modEmpty}) == "" {
+			note += "(known-class:redundant-parentheses-dropped)"
 		} else {
 			fail(in, k, "reparsed tree differs (file, comments ignored)", d, nil)
 			return "FAIL:tree"
@@ -196,7 +205,8 @@ func checkParsed(in input) string {
 		fail(in, k, "reparsed package name differs", d, nil)
 		return "FAIL:tree"
 	}
-	commentsOK := c24lib.Diff(sf.Decls, sf2.Decls, c24lib.CmpOpts{Comments: true, ModParens: note != "", NoPos: note != ""}) == "" && len(sf.Comments) == len(sf2.Comments)
+	parensDropped := strings.Contains(note, "redundant-parentheses")
+	commentsOK := c24lib.Diff(sf.Decls, sf2.Decls, c24lib.CmpOpts{Comments: true, ModParens: parensDropped, NoPos: parensDropped, ModEmpty: modEmpty}) == "" && len(sf.Comments) == len(sf2.Comments)
 	text2, err := forkPrint(fset2, sf2)
 	if err == nil && text2 != text1 && in.origin != "corpus" && c24lib.HasEmptyBodyAfterMultilineSignature(sf) {
 		note += "(known-class:empty-body-after-multiline-signature)"
@@ -243,8 +253,8 @@ func checkParsed(in input) string {
 	for _, n := range nodes[1:] {
 		fdecls = append(fdecls, n.(ast.Decl))
 	}
-	if d := c24lib.Diff(fdecls, sfB.Decls, c24lib.CmpOpts{}); d != "" {
-		if in.origin != "corpus" && c24lib.Diff(fdecls, sfB.Decls, c24lib.CmpOpts{ModParens: true, NoPos: true}) == "" {
+	if d := c24lib.Diff(fdecls, sfB.Decls, c24lib.CmpOpts{ModEmpty: modEmpty}); d != "" {
+		if in.origin != "corpus" && c24lib.Diff(fdecls, sfB.Decls, c24lib.CmpOpts{ModParens: true, NoPos: true, ModEmpty: modEmpty}) == "" {
 			if !strings.Contains(note, "redundant-parentheses") {
 				note += "(known-class:redundant-parentheses-dropped)"
 			}
@@ -415,7 +425,7 @@ func coqTokens(text string) (string, bool) {
 func main() {
 	a := vh.ParseArgs()
 	rng := vh.NewRng(a.Seed)
-	rep = vh.NewReport(a, "parsed trees: corpus/C25/*.go, $GOROOT/src .go files outside testdata (quick: PRNG sample of 300, thorough: all), every .go file of $VERIF_REPO, grammar-generated programs (c24lib.Gen); "+
+	rep = vh.NewReport(a, "parsed trees: corpus/C25/*.go, $GOROOT/src .go files outside testdata (quick: PRNG sample of 300, thorough: all), every .go file of $VERIF_REPO, grammar-generated programs (c24lib.Gen; every statement form, labels in front of any statement, statement lists of blocks / case clauses / type-switch clauses / communication clauses - final and non-final - closed by a labelled empty statement `L: ;`, `L:` newline `;` or `L:` before `}`; files with explicit empty statements are compared modulo the EmptyStmt elements of statement lists = class C25-3, everything else exactly); "+
 		"type-parameter files and files with the identifier `macro` excluded (counted). Oracle A: go/parser tree -> fork printer (base/output configuration) -> go/parser: declarations identical incl. ParenExpr (positions excluded), second print = first print; "+
 		"oracle B: fork parser nodes -> output.Stringer per declaration -> go/parser: identical, second print identical. Built trees: random expression trees over operands, 19 binary operators, unary + - ! ^ & <-, StarExpr, ParenExpr, selector/call/index/slice/type-assertion operands, "+
 		"nested against precedence WITHOUT ParenExpr (macro-expansion shapes): print -> go/parser -> equal modulo ParenExpr -> print again identical. "+
@@ -487,7 +497,7 @@ func main() {
 	if a.N > 0 {
 		nGen, nBuilt, nCore = a.N, a.N, a.N
 	}
-	g := &c24lib.Gen{R: rng.Fork(), EmbedUnqualified: true, NoExprNewlines: true}
+	g := &c24lib.Gen{R: rng.Fork(), EmbedUnqualified: true, NoExprNewlines: true, Feat: map[string]int{}}
 	for i := 0; i < nGen; i++ {
 		g.Comments = i%3 == 0
 		src := []byte(g.File(1+g.R.Intn(5), 1+g.R.Intn(4)))
@@ -500,6 +510,10 @@ func main() {
 			rep.Sample(map[string]string{"generated": clip(string(src), 500), "status": st})
 		}
 	}
+
+	// statement-list tails of the generated programs (labelled empty statement closing a block / case / comm clause,
+	// final and non-final) and labelled statements: how many generated files contain each form
+	rep.Extra["generated_features"] = g.Feat
 
 	// ---- headers and conversions (headers.go): every parenthesis of the source is needed.  Parsed trees: oracles A and B
 	// (exact comparison); stream D with positions (macro expansion of parsed code) and without (trees built by hand)
